@@ -35,8 +35,8 @@ func (c17) Info() core.Info {
 	return core.Info{
 		Level: "exploration",
 		Rule: "one worker process per IO configuration (restricted, empty-only, load/save disabled; plus unrestricted as a positive control of the monitor, with harmless names only) because the configuration is frozen at the first extensions.Init. " +
-			"Each history interleaves save(name), load(name), image.new/image.save, exec/run attempts and ordinary inputs, with names from a seeded generator biased to hostile shapes over the property's alphabet (letters, digits, _, ., /, \\, NUL, space, ~, a non-ASCII byte; with/without .gr; .., embedded .gr, empty, absolute paths), inside a scratch tree holding decoy files with unique marker bindings (../outside.gr, a sibling directory, sub/x.gr, secret, x.gr.bak). " +
-			"After EVERY event the whole tree (incl. parent and sibling) is snapshotted (path, size, sha256, mode): created/modified files must be within {./<letters digits _>.gr (only ./.gr in empty-only mode), ./grol.png}; every decoy stays byte-identical; a name the property's predicate rejects must return an error and leave the snapshot unchanged; no marker of a file outside the allowed set ever appears in globals; exec/run must be unknown identifiers; the accept/reject decision of a name is the same at every position. " +
+			"Each history interleaves save(name), load(name), image.new/image.save, exec/run attempts and ordinary inputs, with names from a seeded generator biased to hostile shapes over the property's alphabet (letters, digits, _, ., /, \\, NUL, space, ~, a lone non-ASCII byte and valid multi-byte UTF-8 letters whose code point's low byte is an ASCII letter, digit or underscore; with/without .gr; .., embedded .gr, empty, absolute paths), inside a scratch tree holding decoy files with unique marker bindings (../outside.gr, a sibling directory, sub/x.gr, secret, x.gr.bak). " +
+			"Environment fault: the file an accepted name maps to (or ./grol.png) is pre-created as a directory so that the request fails after acceptance; a failing request may then return an error but must still create nothing outside the allowed set. After EVERY event the whole tree (incl. parent and sibling) is snapshotted (path, size, sha256, mode): created/modified files must be within {./<letters digits _>.gr (only ./.gr in empty-only mode), ./grol.png}; every decoy stays byte-identical; a name the property's predicate rejects must return an error and leave the snapshot unchanged; no marker of a file outside the allowed set ever appears in globals; exec/run must be unknown identifiers; the accept/reject decision of a name is the same at every position. " +
 			"distinct = distinct (configuration, sequence of (operation, name class, decision)); non-trivial = at least one hostile name (path separator, parent reference, NUL, embedded suffix) was submitted after at least one accepted save.",
 		Real:        []string{"extensions.Init configuration, sanitizeFileName, saveFunc/loadFunc, createShellFunctions registration, image.save", "repl.EvalOne, evaluator", "the kernel's file system under a scratch directory"},
 		Stubbed:     []string{"nothing replaced; exec/run are only *attempted* in configurations where they must not exist"},
@@ -53,7 +53,7 @@ func (c17) Budget(tier string) core.Budget {
 
 var c17Configs = []string{"restricted", "emptyonly", "disabled", "unrestricted"}
 
-var hostileAtoms = []string{"a", "b", "Z", "0", "9", "_", ".", "..", "/", "\\", "\x00", " ", "~", "\xc3", ".gr", "gr", "x.gr", "../", "./", "sub/", "existing", "secret", "outside", "sibling/", "/tmp/", ".."}
+var hostileAtoms = []string{"a", "b", "Z", "0", "9", "_", ".", "..", "/", "\\", "\x00", " ", "~", "\xc3", "š", "Ł", "ş", "а", "ａ", "é", "日", ".gr", "gr", "x.gr", "../", "./", "sub/", "existing", "secret", "outside", "sibling/", "/tmp/", ".."}
 
 func hostileName(r *core.Rng) string {
 	switch r.Intn(10) {
@@ -62,7 +62,8 @@ func hostileName(r *core.Rng) string {
 	case 1:
 		return core.Pick(r, []string{"existing", "existing.gr", "newfile", "new_file_2.gr", "A9_", ".gr", "x"})
 	case 2:
-		return core.Pick(r, []string{"../outside", "../outside.gr", "../sibling/decoy.gr", "sub/x", "sub/x.gr", "./existing.gr", "secret", "x.gr.bak", "x.gr.gr", "/etc/passwd", "~/x.gr", "..", "../.gr", "a/../b.gr", "existing.gr\x00.txt", "existing\x00", " existing", "existing ", "a.b.gr", ".gr.gr", "gr", "..gr"})
+		return core.Pick(r, []string{"../outside", "../outside.gr", "../sibling/decoy.gr", "sub/x", "sub/x.gr", "./existing.gr", "secret", "x.gr.bak", "x.gr.gr", "/etc/passwd", "~/x.gr", "..", "../.gr", "a/../b.gr", "existing.gr\x00.txt", "existing\x00", " existing", "existing ", "a.b.gr", ".gr.gr", "gr", "..gr",
+			"š", "š.gr", "aŁ_1", "ş", "а1.gr", "ａ", "é_é", "日本.gr", "dir1", "dir1.gr"})
 	}
 	n := 1 + r.Intn(5)
 	var b strings.Builder
@@ -92,6 +93,13 @@ func (c17) Generate(r *core.Rng, run int, tier string) *core.History {
 		}
 		used = append(used, name)
 		qn := strconv.Quote(name) // quoted: NUL and non-UTF-8 bytes must survive the JSON history file
+		if cfg != "unrestricted" && r.Bool(.06) {
+			// environment fault: the file an accepted name maps to already exists as a DIRECTORY, so the request
+			// fails after the name was accepted; a failing request must still create nothing outside the allowed set
+			ob := core.Pick(r, []string{"dir1.gr", ".gr", "grol.png", "A9_.gr", "x.gr"})
+			h.Events = append(h.Events, core.Event{Ev: "obstacle", Name: strconv.Quote(ob)})
+			used = append(used, strings.TrimSuffix(ob, ".gr"))
+		}
 		switch k := r.Intn(12); {
 		case k < 5:
 			h.Events = append(h.Events, core.Event{Ev: "save", Name: qn})
@@ -161,13 +169,15 @@ var plainName = regexp.MustCompile(`^[A-Za-z0-9_]*(\.gr)?$`)
 func grolString(s string) string { return quoteGrol(s) }
 
 type c17Result struct {
-	Viol     *core.Violation `json:"viol"`
-	Shape    []string        `json:"shape"`
-	Escape   int             `json:"escapes_seen_in_control"`
-	Hostile  int             `json:"hostile"`
-	Accepted int             `json:"accepted"`
-	Rejected int             `json:"rejected"`
-	Ticks    int64           `json:"ticks"`
+	Viol      *core.Violation `json:"viol"`
+	Shape     []string        `json:"shape"`
+	Escape    int             `json:"escapes_seen_in_control"`
+	Hostile   int             `json:"hostile"`
+	Accepted  int             `json:"accepted"`
+	Rejected  int             `json:"rejected"`
+	Ticks     int64           `json:"ticks"`
+	Obstacles int             `json:"obstacles"`
+	Blocked   int             `json:"blocked"`
 }
 
 var c17Decoys = map[string]string{
@@ -212,6 +222,7 @@ func c17Worker(args []string) int {
 	s := world.NewSession(world.SessCfg{MaxDepth: 1000})
 	res := &c17Result{}
 	decisions := map[string]string{}
+	obstacles := map[string]bool{}
 	fail := func(i int, oracle, detail string) {
 		if res.Viol == nil {
 			res.Viol = &core.Violation{Oracle: oracle, Event: i, Sig: "C17|" + config + "|" + oracle, Detail: detail}
@@ -225,6 +236,14 @@ func c17Worker(args []string) int {
 			e.Name = uq
 		}
 		var src string
+		if e.Ev == "obstacle" {
+			if os.Mkdir(filepath.Join(work, e.Name), 0o755) == nil {
+				obstacles["work/"+e.Name] = true
+				res.Obstacles++
+			}
+			prev = snapshot(root)
+			continue
+		}
 		switch e.Ev {
 		case "save":
 			src = "save(" + grolString(e.Name) + ")"
@@ -261,7 +280,7 @@ func c17Worker(args []string) int {
 		if noarg {
 			name = ""
 		}
-		hostile := strings.ContainsAny(name, "/\\\x00~ ") || strings.Contains(name, "..") || strings.Count(name, ".") > 1
+		hostile := strings.ContainsAny(name, "/\\\x00~ šŁşаａé日") || strings.Contains(name, "..") || strings.Count(name, ".") > 1
 		if hostile {
 			res.Hostile++
 		}
@@ -309,7 +328,14 @@ func c17Worker(args []string) int {
 						fail(i, "write-confined", fmt.Sprintf("save(%q) is an accepted name but changed %v (allowed %v)", name, changed, keysOf(allowed)))
 					}
 				}
-				if isErr {
+				blocked := false
+				for a := range allowed {
+					blocked = blocked || obstacles[a]
+				}
+				if blocked {
+					res.Blocked++
+				}
+				if isErr && !blocked {
 					fail(i, "accepted-name-works", fmt.Sprintf("save(%q) must be accepted in %s mode but failed: %v", name, config, truncAll(r.Errs)))
 				}
 				savedOnce = savedOnce || !isErr
@@ -418,6 +444,10 @@ func (c17) Execute(h *core.History) *core.Outcome {
 	st.ProbeN("hostile_names_submitted", res.Hostile)
 	st.ProbeN("accepted_saves", res.Accepted)
 	st.ProbeN("rejected_requests", res.Rejected)
+	for k := 0; k < res.Obstacles; k++ {
+		st.Fault("target_exists_as_directory")
+	}
+	st.ProbeN("accepted_saves_failing_on_a_directory_target", res.Blocked)
 	st.ProbeN("control_escapes_seen_by_monitor_in_unrestricted_mode", res.Escape)
 	st.Nontrivial = res.Hostile > 0 && res.Accepted > 0
 	st.Shape = shapeOf(append([]string{h.Strs["config"]}, res.Shape...))
